@@ -205,7 +205,7 @@ def run(prop: str, tier_: str) -> int:
                                 r = c.get(url)
                                 tid += 1
                                 if r.status_code != 200:
-                                    lines.append({'tid': tid, 'ev': 'refused', 'url': url, 'status': r.status_code})
+                                    lines.append({'tid': tid, 'ev': 'refused', 'url': url, 'status': r.status_code, 'rep': rid, 'kind': kind})
                                     continue
                                 pm = project_media(r.data, sf)
                                 obs = {k: pm.get(k, 0) for k in ('wf', 'trun_target', 'payload_start', 'sizes_ok', 'payload_ok', 'has_senc',
